@@ -1,22 +1,43 @@
 #!/usr/bin/env python3
-"""Run the repository's test suite (guard off: no build tags) and compare with /root/.vp/BASELINE.json stable_pass.
-usage: baseline.py [pkg-pattern ...]   (default ./...)"""
-import json, subprocess, sys, os
-pats = sys.argv[1:] or ['./...']
+"""Run the repository's stable baseline tests (guard off: no build tags, no overlay) and compare with
+/root/.vp/BASELINE.json stable_pass.  usage: baseline.py [package-substring ...]  (default: all packages)
+Only the tests listed as stable are selected (-run), because some other tests of bfe_tls block on the network."""
+import json, subprocess, sys, os, collections
+from concurrent.futures import ThreadPoolExecutor
+filters = sys.argv[1:]
 env = dict(os.environ, GOFLAGS='-mod=mod', GOPROXY='off', GOSUMDB='off', GOTOOLCHAIN='local')
-p = subprocess.run(['go', 'test', '-json', '-vet=off', '-count=1', '-timeout', '25m'] + pats, cwd='/repo', env=env, capture_output=True, text=True)
-res = {}
-for line in p.stdout.splitlines():
-    try:
-        e = json.loads(line)
-    except Exception:
-        continue
-    if e.get('Test') and e.get('Action') in ('pass', 'fail', 'skip'):
-        res[e['Package'] + '::' + e['Test']] = e['Action']
 base = json.load(open('/root/.vp/BASELINE.json'))['stable_pass']
-pk = set(k.split('::')[0] for k in res)
-missing = [t for t in base if t.split('::')[0] in pk and res.get(t) != 'pass']
-print('tests run:', len(res), 'stable tests in these packages:', sum(1 for t in base if t.split('::')[0] in pk), 'not passing:', len(missing))
-for t in missing[:40]:
-    print('  NOT PASSING', t, res.get(t))
-sys.exit(1 if missing else 0)
+bypkg = collections.defaultdict(set)
+for t in base:
+    pkg, name = t.split('::')
+    if filters and not any(f in pkg for f in filters):
+        continue
+    bypkg[pkg].add(name)
+
+def run(pkg):
+    names = sorted({n.split('/')[0] for n in bypkg[pkg]})
+    pat = '^(' + '|'.join(names) + ')$'
+    p = subprocess.run(['go', 'test', '-json', '-vet=off', '-count=1', '-timeout', '10m', '-run', pat, pkg],
+                       cwd='/repo', env=env, capture_output=True, text=True)
+    res = {}
+    for line in p.stdout.splitlines():
+        try:
+            e = json.loads(line)
+        except Exception:
+            continue
+        if e.get('Test') and e.get('Action') in ('pass', 'fail', 'skip'):
+            res[e['Test']] = e['Action']
+    bad = [(pkg, n, res.get(n)) for n in sorted(bypkg[pkg]) if res.get(n) != 'pass']
+    return len(bypkg[pkg]), bad, (p.stderr[-400:] if bad else '')
+
+total, allbad = 0, []
+with ThreadPoolExecutor(8) as ex:
+    for n, bad, err in ex.map(run, sorted(bypkg)):
+        total += n
+        allbad += bad
+        if err:
+            print(err)
+print('stable tests selected:', total, 'not passing:', len(allbad))
+for b in allbad[:40]:
+    print('  NOT PASSING', *b)
+sys.exit(1 if allbad else 0)
